@@ -219,6 +219,17 @@ fn observe_poling(i: usize, tag: &str, s: &Setup) {
   } else {
     (Ok(f64::INFINITY), vec![])
   };
+  // signed mismatch at the largest admissible period, sign(dkz0) * dkz(On {L, sign}): with dkz increasing along the period this
+  // is negative exactly when the true root (optimum idler recomputed per period) lies beyond the crystal length
+  let g_at_l = if z0v != 0.0 {
+    let pp = PeriodicPoling::On { period: length * M, sign, apodization: Apodization::Off };
+    match guarded(std::panic::AssertUnwindSafe(|| dkz(signal, pump, cs, &pp))) {
+      Ok(Ok((z, _))) => fx(if z0v < 0.0 { -z } else { z }),
+      _ => Value::Null,
+    }
+  } else {
+    Value::Null
+  };
   // residual at the returned period, through the public types (PeriodicPoling::new + optimum idler + delta_k)
   let residual = match &r_main {
     Ok(Ok(p)) if p.is_finite() => {
@@ -243,7 +254,7 @@ fn observe_poling(i: usize, tag: &str, s: &Setup) {
     "replica": {"g0": fx(guess), "g1": fx(guess + 1e-6), "max_iter": 1000, "min": fx(f64::MIN_POSITIVE), "max": fx(length), "tol": fx(1e-12),
                 "result": match &r_rep { Ok(x) => json!({"ok": true, "x": fx(*x)}), Err(m) => json!({"ok": false, "panic": m}) },
                 "table": table_json(&table)},
-    "residual": residual, "zero_index_during_search": zero_index.get(),
+    "residual": residual, "zero_index_during_search": zero_index.get(), "g_at_length": g_at_l,
   }));
 }
 
@@ -374,6 +385,78 @@ fn run_edge(rng: &mut Rng, n: usize) {
       s2.input["edge_root_minus_length"] = fx(*d);
       observe_poling(done * 10 + j, "edge", &s2);
     }
+    done += 1;
+  }
+}
+
+/// nearly phase-matched setups: the crystal angle is tuned by bisection until the unpoled mismatch is +-target, target log-uniform in
+/// [1e-3, 1e3] rad/m (exact periods of 6 mm .. 6 km: mostly beyond the crystal length, an error is due; an exactly vanishing
+/// mismatch is the only case for the infinite period)
+fn run_near(rng: &mut Rng, n: usize) {
+  let mut done = 0;
+  let mut i = 0;
+  while done < n && i < 60 * n {
+    i += 1;
+    let mut s = gen_setup(rng, i, 0.0, 0.05, false);
+    s.pp = PeriodicPoling::Off;
+    if rng.below(3) == 0 {
+      s.signal.set_angles(0. * RAD, 0. * RAD);
+      s.input["signal_theta"] = fx(0.0);
+      s.input["signal_phi"] = fx(0.0);
+      s.input["history"] = json!("none");
+    }
+    let target = rng.log_range(1e-3, 1e3) * if rng.coin() { 1.0 } else { -1.0 };
+    let f = |th: f64, s: &Setup| -> Option<f64> {
+      let mut cs = s.cs.clone();
+      cs.theta = th * RAD;
+      match guarded(std::panic::AssertUnwindSafe(|| dkz(&s.signal, &s.pump, &cs, &PeriodicPoling::Off))) {
+        Ok(Ok((z, _))) if z.is_finite() => Some(z),
+        _ => None,
+      }
+    };
+    let mut found = None;
+    let mut prev: Option<(f64, f64)> = None;
+    for k in 0..=90 {
+      let th = (k as f64).to_radians();
+      if let Some(z) = f(th, &s) {
+        if let Some((pth, pz)) = prev {
+          if (pz - target) * (z - target) < 0.0 {
+            found = Some((pth, th, pz - target));
+            break;
+          }
+        }
+        prev = Some((th, z));
+      } else {
+        prev = None;
+      }
+    }
+    let (mut lo, mut hi, flo) = match found {
+      Some(x) => x,
+      None => continue,
+    };
+    for _ in 0..80 {
+      let mid = 0.5 * (lo + hi);
+      match f(mid, &s) {
+        Some(z) => {
+          if (z - target) * flo > 0.0 {
+            lo = mid
+          } else {
+            hi = mid
+          }
+        }
+        None => break,
+      }
+    }
+    let z0 = match f(lo, &s) {
+      Some(z) => z,
+      None => continue,
+    };
+    if !(z0.abs() > 1e-4 && z0.abs() < 1e4) {
+      continue;
+    }
+    s.cs.theta = lo * RAD;
+    s.input["crystal_theta"] = fx(lo);
+    observe_poling(done, "near", &s);
     done += 1;
   }
 }
@@ -558,6 +641,7 @@ pub fn run(args: &[String]) {
     "nm" => run_nm(&mut rng, n),
     "poling" => run_poling(&mut rng, n),
     "edge" => run_edge(&mut rng, n),
+    "near" => run_near(&mut rng, n),
     "theta" => run_theta(&mut rng, n),
     "replay" => {
       // args[1]: file {"mode": "poling"|"theta", "input": .., "pp": ..}
